@@ -35,7 +35,8 @@ TRUSTED_EXTRA = [
 ]
 ASSUMPTIONS = [
     "the analyses themselves (reachability, summaries, liveness, plan building) are abstract inputs of the gate model; that pruning with a plan preserves results is property C03, here only observed on the generated programs (plan vs no plan vs recomputed plan)",
-    "summary.rs spends at most F*(F+2L+2) budget events (the comment in limits.rs); C18_summary_budget_suffices is conditional on that",
+    "the summary fixpoint is modelled as an arbitrary schedule of push_unique_bounded / class steps over tables of callees, capture reads/writes and class levels (C18_summary_events_are_insertions); the charging functions are tied to summary.rs textually, the schedule itself is not modelled",
+    "liveness.rs, reachability.rs, diagnostics.rs and opt.rs have no run-time allowance (GenLimits.caps_users lists every reference to the caps outside limits.rs)",
     "generated programs are closed numeric programs without captured variables (the known C03/C04 defect shapes are avoided); arenas of 256 MiB as in the CLI",
 ]
 COQ_TIMEOUT = 1500
@@ -430,6 +431,15 @@ PRELUDE_SRC = [
     "do never() start",                      # never called: warning + removable definition
     "    shout(\"never\")",
     "end",
+    "do steps(items) start",                 # loop-carried pure copy: needs the liveness fixpoint to converge
+    "    make prev get \"start\"",
+    "    jasi (items.len() pass 0) start",
+    "        make cur get items.pop()",
+    "        shout(\"{prev} -> {cur}\")",
+    "        prev get cur",
+    "    end",
+    "    return prev",
+    "end",
     "make keep get 1",
     "keep get helper(keep)",
     "shout(keep)",                           # 2
@@ -444,10 +454,14 @@ PRELUDE_SRC = [
     "copy[0] get 7",
     "shout(arr[0])",                         # 1
     "shout(copy[0])",                        # 7
+    "if to say (keep pass 0) start",         # a branch of the script body reading an earlier variable
+    "    shout(keep)",                       # 2
+    "end",
+    "shout(steps([30, 20, 10]))",            # start -> 10, 10 -> 20, 20 -> 30, 30
 ]
-PRELUDE_SHAPE = ("d0 d0 F0( s0 ) F0( d0 s1 r0 ) F0( s0 r0 ) F1( r0 s0 ) F0( s0 ) "
-                 "d0 s1 s0 s1 d1 s0 s0 s0 s0 d0 d0 s0 s0 s0")
-PRELUDE_OUT = ["2", "10", "99", "11", "6", "1", "7"]
+PRELUDE_SHAPE = ("d0 d0 F0( s0 ) F0( d0 s1 r0 ) F0( s0 r0 ) F1( r0 s0 ) F0( s0 ) F1( d0 L0( d0 s0 s0 ) r0 ) "
+                 "d0 s1 s0 s1 d1 s0 s0 s0 s0 d0 d0 s0 s0 s0 I0( s0 ) s1")
+PRELUDE_OUT = ["2", "10", "99", "11", "6", "1", "7", "2", "start -> 10", "10 -> 20", "20 -> 30", "30"]
 
 
 def rep(n, body):
@@ -493,6 +507,16 @@ def family(name, n, want_src=True):
         for i in range(n):
             src.append("make v%d get %d" % (i, i))
         shape.append(rep(n, "d0"))
+    elif name == "liveness_chain":
+        for i in range(n):
+            src.append("make c%d get %s" % (i, ("c%d" % (i - 1)) if i else "1"))
+        shape.append(rep(n, "d0"))
+        if n:
+            src.append("if to say (c%d pass 0) start" % (n - 1))
+            src.append("    shout(c%d)" % (n - 1))
+            src.append("end")
+            shape.append("I0( s0 )")
+            out.append("1")
     elif name == "locals":
         nf = 60                      # few functions: the summary bound F*(F+2L+2) stays below its cap
         k, r = divmod(n, nf)
@@ -532,10 +556,119 @@ def family(name, n, want_src=True):
     return "\n".join(src) + "\n", " ".join(x for x in shape if x), out
 
 
+def stmt_tokens(shape):
+    return sum(1 for t in shape.split() if t not in (")", "/"))
+
+
+def callgraph(kind, n, against=False):
+    """A program far below every limit: the prelude, a probe (`z get 1` is a dead store around a
+    call into the padding), then `n` padding functions whose call graph has the given shape.
+    Padding functions are numbered with the call direction (callee index above the caller's)
+    or against it.  Returns (source, shape, expected output, number of non-padding statements,
+    number of non-padding functions)."""
+    def name(i):
+        return "pad%d" % ((n - 1 - i) if against else i)
+    edges = {i: [] for i in range(n)}
+    if kind == "ring":
+        for i in range(n):
+            edges[i] = [(i + 1) % n] if n > 1 else []
+    elif kind == "chain":
+        for i in range(n - 1):
+            edges[i] = [i + 1]
+    elif kind == "hub_out":
+        edges[0] = list(range(1, n))
+    elif kind == "hub_in":
+        for i in range(1, n):
+            edges[i] = [0]
+        edges[0] = [1] if n > 1 else []
+    elif kind == "bipartite":
+        a = n // 2
+        for i in range(a):
+            edges[i] = list(range(a, n))
+        for j in range(a, n):
+            edges[j] = list(range(a))
+    elif kind == "nested_rings":
+        m = max(2, int(round(n ** 0.5)))
+        for i in range(n):
+            r, k = divmod(i, m)
+            last = min(n, (r + 1) * m) - 1
+            nxt = i + 1 if i < last else r * m
+            edges[i] = [nxt] if nxt != i else []
+            if k == 0:
+                other = ((r + 1) * m) % n if (r + 1) * m < n else 0
+                if other != i and other not in edges[i]:
+                    edges[i].append(other)
+    else:
+        raise ValueError(kind)
+    src = list(PRELUDE_SRC)
+    shape = [PRELUDE_SHAPE]
+    out = list(PRELUDE_OUT)
+    src += ["make z get 0", "z get 1", "%s(2)" % name(0), "z get 2", "shout(z)", "shout(keep add 1)"]
+    shape.append("d0 s0 s1 s0 s0 s0")
+    out += ["2", "3"]
+    own_stmts = (stmt_tokens(" ".join(shape)), len("\n".join(src)) + 1)      # statement ids / source offsets below these are "own"
+    own_fns = sum(1 for t in " ".join(shape).split() if t.startswith("F"))
+    order = range(n - 1, -1, -1) if against else range(n)       # definitions in name order
+    for i in order:
+        src.append("do %s(n) start" % name(i))
+        if edges[i]:
+            src.append("    if to say (n pass 0) start")
+            for j in edges[i]:
+                src.append("        %s(n minus 1)" % name(j))
+            src.append("    end")
+            shape.append("F1( I0( %s ) r0 )" % " ".join(["s1"] * len(edges[i])))
+        else:
+            shape.append("F1( r0 )")
+        src.append("    return n")
+        src.append("end")
+    return "\n".join(src) + "\n", " ".join(shape), out, own_stmts, own_fns
+
+
+def own_analysis(r, own_stmts, own_fns):
+    """The part of the analysis result that belongs to the prelude and the probe."""
+    n_stmts, cut = own_stmts
+    _, _, ana = split_diags(r)
+    warn = sorted([k, st] for k, st in ana if st < cut)       # the resolver's own analysis warnings, by source offset
+    pl = r.get("plan") or {}
+    return {"warnings": warn, "removable_stmts": [x for x in pl.get("rs_low", []) if x < n_stmts],
+            "removable_fns": [x for x in pl.get("rf_low", []) if x <= own_fns]}
+
+
+def summary_accounting_diffs(r):
+    """Exact-budget probes (harness flag `sumx`): events charged must equal rows inserted."""
+    x = ((r.get("full") or {}).get("summ") or {}).get("x")
+    if not x:
+        return []
+    d = []
+    if x["unavail_inf"]:
+        d.append("summaries unavailable with an unlimited budget")
+    if x["unavail_ub"]:
+        d.append("a budget of %d events (rows inserted %d + class steps %d) does not suffice: %d summaries unavailable"
+                 % (x["ins"] + x["cls_dist"], x["ins"], x["cls_dist"], x["unavail_ub"]))
+    if x["unavail_est"]:
+        d.append("the preflight estimate F*(F+2L+2) = %d does not suffice as a budget: %d summaries unavailable" % (x["est"], x["unavail_est"]))
+    if x["unavail_lb1"] == 0:
+        d.append("a budget of %d events suffices although %d rows are inserted and %d classes change (charging is not per insertion)"
+                 % (x["ins"] + x["cls_changed"] - 1, x["ins"], x["cls_changed"]))
+    return d
+
+
+# (kind, size quick, size thorough, numbered against the call direction?)
+CALLGRAPHS = [
+    ("ring", 340, 420, False), ("ring", 600, 900, True),
+    ("chain", 700, 1000, False), ("chain", 700, 1000, True),
+    ("hub_out", 900, 1000, False), ("hub_in", 900, 1000, False), ("hub_in", 900, 1000, True),
+    ("bipartite", 100, 160, False), ("bipartite", 100, 160, True),
+    ("nested_rings", 289, 400, False), ("nested_rings", 400, 625, True),
+]
+CALLGRAPH_SMALL = [3, 17, 50]
+
+
 # target metric, family, search range, tier
 FAMILIES = [
     ("summary_events", "functions", 0, 40000, "quick"),
     ("liveness_events", "liveness", 0, 200000, "quick"),
+    ("liveness_events", "liveness_chain", 0, 200000, "quick"),
     ("blocks_in_one_function", "blocks_in_fn", 0, 200000, "quick"),
     ("locals", "locals", 0, 600000, "quick"),
     ("statements", "statements", 0, 600000, "quick"),
@@ -605,7 +738,7 @@ def threshold(env, target, fam, lo, hi):
 
 # --- running programs on the implementation ------------------------------------------------------
 
-def run_progs(env, name, progs, release=False, arena_mib=256, timeout=600, single_timeout=60):
+def run_progs(env, name, progs, release=False, arena_mib=256, timeout=600, single_timeout=60, flags=""):
     """progs: list of (id, source).  Batch run; on a crash the remaining programs are run one by one.
     Returns {id: dict | {'crash': text}}."""
     d = os.path.join(env.work, name)
@@ -619,7 +752,7 @@ def run_progs(env, name, progs, release=False, arena_mib=256, timeout=600, singl
             paths[pid] = pth
             f.write("%s %s\n" % (pid, pth))
     out = os.path.join(d, "out.jsonl")
-    rc, o = common.sh("%s limits progs %s %s %d > /dev/null" % (common.harness_bin(release), lst, out, arena_mib), timeout=timeout)
+    rc, o = common.sh("%s limits progs %s %s %d %s > /dev/null" % (common.harness_bin(release), lst, out, arena_mib, flags), timeout=timeout)
     res = {}
     if os.path.exists(out):
         for l in open(out).read().splitlines():
@@ -631,7 +764,7 @@ def run_progs(env, name, progs, release=False, arena_mib=256, timeout=600, singl
     for pid, _ in progs:
         if pid not in res:
             o1 = os.path.join(d, "%s.json" % pid)
-            rc1, t1 = common.sh("%s limits prog %s %s %d > /dev/null" % (common.harness_bin(release), paths[pid], o1, arena_mib), timeout=single_timeout)
+            rc1, t1 = common.sh("%s limits prog %s %s %d %s > /dev/null" % (common.harness_bin(release), paths[pid], o1, arena_mib, flags), timeout=single_timeout)
             if rc1 == 0 and os.path.exists(o1):
                 res[pid] = json.load(open(o1))
             elif rc1 == 124:
@@ -641,7 +774,7 @@ def run_progs(env, name, progs, release=False, arena_mib=256, timeout=600, singl
     return res
 
 
-def run_one_prog(env, pid, src, release=False, arena_mib=256, timeout=1800):
+def run_one_prog(env, pid, src, release=False, arena_mib=256, timeout=1800, flags=""):
     d = os.path.join(env.work, "sized")
     os.makedirs(d, exist_ok=True)
     pth = os.path.join(d, "%s.ns" % pid)
@@ -649,7 +782,7 @@ def run_one_prog(env, pid, src, release=False, arena_mib=256, timeout=1800):
     o1 = os.path.join(d, "%s.json" % pid)
     if os.path.exists(o1):
         os.remove(o1)
-    rc1, t1 = common.sh("%s limits prog %s %s %d > /dev/null" % (common.harness_bin(release), pth, o1, arena_mib), timeout=timeout)
+    rc1, t1 = common.sh("%s limits prog %s %s %d %s > /dev/null" % (common.harness_bin(release), pth, o1, arena_mib, flags), timeout=timeout)
     if rc1 == 0 and os.path.exists(o1):
         return json.load(open(o1))
     return {"crash": "exit %s: %s" % (rc1, t1[-400:])}
@@ -713,6 +846,10 @@ def oracle(r, expected_out=None):
             want = [(k, st) for _, k, st in want]
             if want != ana:
                 bad.append("below the limits the emitted analysis warnings differ from the recomputed ones (%d vs %d)" % (len(ana), len(want)))
+        un = ((full or {}).get("summ") or {}).get("unavail", 0)
+        if un:
+            bad.append("below every limit, yet %d function summaries became unavailable (the run-time summary budget ran out "
+                       "without a resource-limit warning)" % un)
     if "full_panic" in r:
         bad.append("analyses panicked when run without the gate: " + r["full_panic"])
     if r["accepted"]:
@@ -879,7 +1016,7 @@ def correspond(env, searching=False, model=True):
         shard = 500
         for s0 in range(0, len(progs), shard):
             part = progs[s0:s0 + shard]
-            res = run_progs(env, "shapes%d_%d" % (int(release), s0), [(pid, src) for pid, src, _ in part], release)
+            res = run_progs(env, "shapes%d_%d" % (int(release), s0), [(pid, src) for pid, src, _ in part], release, flags="sumx")
             items = []
             for pid, src, shape in part:
                 r = res[pid]
@@ -907,6 +1044,10 @@ def correspond(env, searching=False, model=True):
                     if diffs and len(disagreements) < 5:
                         disagreements.append({"stream": "counts-and-gate", "case": {"kind": "prog", "source": src, "shape": shape, "release": release},
                                               "differences": diffs[:4]})
+                acc = summary_accounting_diffs(r)
+                if acc and len(disagreements) < 8:
+                    disagreements.append({"stream": "summary-accounting", "case": {"kind": "prog", "source": src, "shape": shape, "release": release},
+                                          "differences": acc[:3]})
                 if len(samples) < 3 and len(src) < 300 and r.get("accepted") and r.get("plan") and r["plan"]["rs"]:
                     samples.append({"source": src, "shape": shape, "counts": {k: v for k, v in r["counts"].items() if k != "pf"},
                                     "plan": r["plan"], "output": r["run_none"]["head"]})
@@ -925,7 +1066,20 @@ def correspond(env, searching=False, model=True):
                 thr_report[target] = "not reachable with family %s up to n=%d (model verdict there: %s)" % (fam, hi, v)
                 continue
             thr_report[target] = {"family": fam, "threshold_n": t, "model_verdict_at_threshold": list(v)}
-            for n in (t - 1, t, t + 1):
+            thr_report[target + ":" + fam] = thr_report[target]
+            below = [t - 1]
+            if target in ("liveness_events", "summary_events") and t >= 2:
+                # every size whose estimate is within one sweep of the script body below the limit
+                # (2 * blocks * locals of function 0, from the model's counts), at most 12 sizes
+                _, shp, _ = family(fam, t - 1, want_src=False)
+                _, pf1, _ = parse_model_S(model_shapes(env, "win", [("0", shp)])["0"][0])
+                est1 = sum((2 * b + o) * l for b, o, l in pf1)
+                sweep0 = 2 * pf1[0][0] * pf1[0][2]
+                marginal = max(1, v[1] - est1) if target == "liveness_events" else max(1, v[1] - v[2])
+                k_max = min(12, sweep0 // marginal + 2) if target == "liveness_events" else 3
+                below = [t - k for k in range(k_max, 0, -1) if t - k >= 0]
+                thr_report[target + ":" + fam] = dict(thr_report[target], sizes_below=below)
+            for n in below + [t, t + 1]:
                 if n >= 0:
                     sized.append((target, fam, n))
     # fixed probes: functions and locals both close to their caps (the summary bound is then far
@@ -979,6 +1133,91 @@ def correspond(env, searching=False, model=True):
         s = sized_rows[0]
         samples.append({"sized": s})
 
+    # ---- stream D: call-graph shapes far below every limit ----------------------------------
+    cg_rows = []
+    small_jobs = []
+    for kind in sorted(set(k for k, _, _, _ in CALLGRAPHS)):
+        for against in (False, True):
+            for n in CALLGRAPH_SMALL:
+                small_jobs.append((kind, n, against))
+    small = {}
+    progs_d = []
+    for kind, n, against in small_jobs:
+        src, shape, expect, own_s, own_f = callgraph(kind, n, against)
+        pid = "cg_%s_%d_%d" % (kind, n, int(against))
+        small[pid] = (kind, n, against, src, shape, expect, own_s, own_f)
+        progs_d.append((pid, src))
+    baselines = {}
+    for release in profiles:
+        res = run_progs(env, "callgraphs%d" % int(release), progs_d, release, flags="sumx")
+        items = [(pid, small[pid][4]) + tuple(gate_fields(res[pid])) for pid, _ in progs_d if "counts" in res[pid]]
+        mres = model_shapes(env, "callgraphs%d" % int(release), items) if (model and items) else {}
+        for pid, _ in progs_d:
+            kind, n, against, src, shape, expect, own_s, own_f = small[pid]
+            r = res[pid]
+            evaluations += 1
+            case = {"kind": "callgraph", "shape_kind": kind, "n": n, "against": against, "release": release}
+            bad = oracle(r, expect)
+            if bad:
+                failures.append({"key": "callgraph:%s:%d:%d" % (kind, n, int(against)), "case": case, "observed": "; ".join(bad)[:1500]})
+                continue
+            nontrivial.add("callgraph:%s:%d:%d" % (kind, n, int(against)))
+            own = own_analysis(r, own_s, own_f)
+            base = baselines.setdefault(release, own)
+            if own != base:
+                failures.append({"key": "callgraph-dependence:%s:%d:%d" % (kind, n, int(against)), "case": case,
+                                 "observed": "the analysis result for the prelude and the probe depends on the unrelated padding: %s, with other padding %s"
+                                             % (json.dumps(own)[:500], json.dumps(base)[:500])})
+                continue
+            if model and pid in mres:
+                diffs = compare_with_model(r, mres[pid][0], mres[pid][1])
+                if diffs and len(disagreements) < 8:
+                    disagreements.append({"stream": "callgraph-counts-and-gate", "case": case, "differences": diffs[:4]})
+            acc = summary_accounting_diffs(r)
+            if acc and len(disagreements) < 8:
+                disagreements.append({"stream": "summary-accounting", "case": case, "differences": acc[:3]})
+
+    def do_cg(job):
+        (kind, n, against), release = job
+        src, shape, expect, own_s, own_f = callgraph(kind, n, against)
+        # the strongly connected shapes are expensive (the fixpoint is quartic in the ring size):
+        # run the analyses once (in the resolver), not a second time through the public API
+        r = run_one_prog(env, "cgbig_%s_%d_%d_%d" % (kind, n, int(against), int(release)), src, release,
+                         flags="nofull" if kind in ("ring", "nested_rings") else "")
+        return job, shape, expect, own_s, own_f, r
+    big_jobs = [((kind, (nq if env.tier == "quick" else nt), against), rel) for kind, nq, nt, against in CALLGRAPHS for rel in profiles]
+    with concurrent.futures.ThreadPoolExecutor(max_workers=6) as ex:
+        big = list(ex.map(do_cg, big_jobs))
+    items = [("%s_%d_%d_%d" % (k, n, int(a), int(rel)), shape) + tuple(gate_fields(r)) for ((k, n, a), rel), shape, _, _, _, r in big if "counts" in r]
+    mres = model_shapes(env, "callgraphs_big", items) if (model and items) else {}
+    for ((kind, n, against), release), shape, expect, own_s, own_f, r in big:
+        evaluations += 1
+        case = {"kind": "callgraph", "shape_kind": kind, "n": n, "against": against, "release": release}
+        cg_rows.append({"shape": kind, "n": n, "against": against, "release": release, "limit": r.get("limit"), "t_ms": r.get("t"),
+                        "summary_estimate": (r.get("counts") or {}).get("F", 0) * ((r.get("counts") or {}).get("F", 0) + 2 * (r.get("counts") or {}).get("L", 0) + 2)})
+        bad = oracle(r, expect)
+        if not bad and r.get("limit") is not None:
+            bad = ["a call-graph shape meant to be far below every limit is over %s" % (r["limit"],)]
+        if bad:
+            failures.append({"key": "callgraph:%s:%d:%d" % (kind, n, int(against)), "case": case, "observed": "; ".join(bad)[:1500]})
+            continue
+        own = own_analysis(r, own_s, own_f)
+        base = baselines.get(release)
+        if base is not None and own != base:
+            failures.append({"key": "callgraph-dependence:%s:%d:%d" % (kind, n, int(against)), "case": case,
+                             "observed": "the analysis result for the prelude and the probe depends on the unrelated padding: %s, with small padding %s"
+                                         % (json.dumps(own)[:500], json.dumps(base)[:500])})
+            continue
+        nontrivial.add("callgraph:%s:%d:%d" % (kind, n, int(against)))
+        key = "%s_%d_%d_%d" % (kind, n, int(against), int(release))
+        if model and key in mres:
+            # without the recomputed analyses only the counts and the verdict can be compared
+            diffs = compare_with_model(r, mres[key][0], mres[key][1] if r.get("full") else None)
+            if diffs and len(disagreements) < 8:
+                disagreements.append({"stream": "callgraph-counts-and-gate", "case": case, "differences": diffs[:4]})
+    extra["callgraph_runs"] = cg_rows
+    extra["callgraph_baseline"] = baselines.get(False)
+
     return {
         "evaluations": evaluations,
         "distinct_nontrivial": len(nontrivial),
@@ -987,7 +1226,11 @@ def correspond(env, searching=False, model=True):
                 "B: random closed programs (all statement kinds, nested functions): real fact tables + count_program vs counts_of_program, "
                 "real gate vs emit_analysis_warnings, oracle on the implementation; non-trivial = distinct shape that is accepted, has a "
                 "non-empty plan and prints something. C: per reachable limit a family sized at T-1/T/T+1 with T found by bisection on the "
-                "model; full pipeline, three plan configurations, expected output; non-trivial = has prunable statements and output.",
+                "model (for the derived bounds every size within one script sweep below T); full pipeline, three plan configurations, "
+                "expected output; non-trivial = has prunable statements and output. D: call-graph shapes (ring, chain, hubs, complete "
+                "bipartite, nested rings; numbered with and against the call direction) far below every limit: all summaries available, "
+                "the analysis result for the prelude + probe independent of the padding, exact-budget probes of the summary fixpoint "
+                "(events charged = rows inserted) on the small ones and on every program of B.",
         "samples": samples,
         "failures": failures,
         "disagreements": disagreements,
@@ -1010,6 +1253,18 @@ def replay(env, payload):
         bad = li is None or li != lm or "panic" in (li or [""])[0]
         print("replay: %s" % ("still failing" if bad else "passes now"))
         return 1 if bad else 0
+    if kind == "callgraph":
+        src, shape, expect, own_s, own_f = callgraph(inner["shape_kind"], inner["n"], inner["against"])
+        r = run_one_prog(env, "replay", src, release, flags="sumx" if inner["n"] <= 120 else "")
+        bad = oracle(r, expect)
+        bsrc, _, bexp, bs, bf = callgraph("ring", 3, False)
+        rb = run_one_prog(env, "replay_base", bsrc, release)
+        if not bad and "counts" in rb and own_analysis(r, own_s, own_f) != own_analysis(rb, bs, bf):
+            bad = ["analysis result for the prelude depends on the padding: %s vs %s" % (own_analysis(r, own_s, own_f), own_analysis(rb, bs, bf))]
+        acc = summary_accounting_diffs(r)
+        print("oracle: %s\nsummary accounting: %s" % (bad or "ok", acc or "ok"))
+        print("replay: %s" % ("still failing" if (bad or acc) else "passes now"))
+        return 1 if (bad or acc) else 0
     if kind in ("prog", "family"):
         if kind == "family":
             src, shape, expect = family(inner["family"], inner["n"])
